@@ -31,6 +31,8 @@ def initial_store(rng, nested):
         d.append(["k", {"d": [[k, rng.randint(-4, 6)] for k in "pq"]}])
         d.append(["l", {"l": [rng.randint(-4, 6) for _ in range(3)]}])
         d.append(["o", {"o": [[k, rng.randint(-4, 6)] for k in "uv"]}])
+        # three levels deep: d['zz']['hh']['u'] (an assignment there triggers the readers of d['zz']['t'] through d['zz'])
+        d.append(["zz", {"d": [["hh", {"d": [[k, rng.randint(-4, 6)] for k in "uv"]}], ["t", rng.randint(-4, 6)]]}])
     m = [[k, rng.randint(-4, 6)] for k in "rst"]
     if nested:
         m.append(["w", {"o": [["i", rng.randint(-4, 6)], ["j", rng.randint(-4, 6)]]}])
@@ -45,6 +47,7 @@ def leaf_paths(nested):
         P += [["d", ["i", "l"], ["i", i]] for i in range(3)]
         P += [["d", ["i", "o"], ["a", k]] for k in "uv"]
         P += [["m", ["i", "w"], ["a", k]] for k in "ij"]
+        P += [["d", ["i", "zz"], ["i", "hh"], ["i", k]] for k in "uv"] + [["d", ["i", "zz"], ["i", "t"]]]
     return P
 
 
